@@ -247,11 +247,11 @@ def run(ctx):
 		world()
 		for cmd in CMDS:
 			sub({'kind': 'commands', 'cmds': [cmd], 'seed': rng.randrange(10 ** 6)}, 'single-command')
-		for j in range(ctx.q(25, 400)):
+		for j in range(ctx.q(45, 400)):
 			if not ctx.time_left(0.7):
 				break
 			sub({'kind': 'commands', 'cmds': [rng.choice(CMDS) for _ in range(rng.randint(2, 12))], 'seed': rng.randrange(10 ** 6)}, 'command-history')
-		for j in range(ctx.q(60, 800)):
+		for j in range(ctx.q(150, 800)):
 			if not ctx.time_left(0.95):
 				break
 			ops = [rng.choice(['add', 'del', 'mod', 'flush', 'commit', 'query', 'query', 'rollback', 'close']) for _ in range(rng.randint(1, 12))]
